@@ -5,7 +5,7 @@
    Model/ClientRoute.v (resolution and sending, client.py:468-527, 996-1029, 1109-1371).
    [WF] is the invariant of reachable states (C08_reachable_wf); [wf] is its boolean form. *)
 From AV Require Import Base.Util Model.ClientMeta Model.ClientRoute Proofs.ClientMetaDict Proofs.ClientMetaFacts
-  Proofs.ClientRouteWF Proofs.ClientRouteFacts Proofs.ClientMetaC08 Proofs.ClientMetaRecovery Proofs.ClientMetaBudget.
+  Proofs.ClientRouteWF Proofs.ClientRouteFacts Proofs.ClientMetaC08 Proofs.ClientMetaRecovery Proofs.ClientMetaBudget Proofs.ClientMetaBudgetEx.
 
 (* Every state reachable by ANY history of client operations (metadata / coordinator loads with any try
    script and any response bytes, sends with any outcomes, resets, connection losses, close, host updates)
@@ -349,28 +349,11 @@ Proof.
   - split; reflexivity.
 Qed.
 
-(* the retry loop on two stale topics with fail_on_error=True: the bound 2 is attained (two failed attempts, the
-   third succeeds), all premises of C08_recovery_within_budget hold *)
-Definition ex_retry_ps := [{| p_topic := 1; p_part := 0; p_tag := 1 |}; {| p_topic := 0; p_part := 0; p_tag := 2 |}].
-Definition ex_u := {| u_shuf := [1; 2]; u_kouts := [KResp]; u_bshuf := []; u_bouts := [] |}.
-Definition ex_mk (st : state) (loads : list load) : attempt :=
-  {| at_loads := loads;
-     at_outs := map (fun q => ROk (map (honest_answer ex_truth (rq_node q)) (rq_payloads q)))
-                    (a_reqs (aware st None true ex_retry_ps loads [RFail; RFail; RFail])) |}.
-Definition ex_a1 := ex_mk ex_s1 [].
-Definition ex_st1 := snd (fst (run_attempt true ex_retry_ps ex_s1 ex_a1)).
-Definition ex_a2 := ex_mk ex_st1 [LoadMeta ex_u ex_t1].
-Definition ex_st2 := snd (fst (run_attempt true ex_retry_ps ex_st1 ex_a2)).
-Definition ex_a3 := ex_mk ex_st2 [LoadMeta ex_u ex_t0].
+(* the retry loop on two stale topics with fail_on_error=True (proved in Proofs/ClientMetaBudgetEx.v): every premise
+   of C08_recovery_within_budget holds and the bound is attained - two failed attempts, the third succeeds *)
 Example ex_budget_attained :
-  stale_count ex_truth ex_retry_ps ex_s1 = 2%nat /\
-  first_success true ex_retry_ps ex_s1 [ex_a1; ex_a2; ex_a3] = Some 2%nat /\
-  all_good ex_truth true ex_retry_ps ex_s1 [ex_a1; ex_a2; ex_a3].
-Proof.
-  split; [vm_compute; reflexivity|]. split; [vm_compute; reflexivity|].
-  assert (Hc : forall r, r = ex_t0 \/ r = ex_t1 -> load_truthful ex_truth (LoadMeta ex_u r)).
-  { intros r [->| ->]; (split; [vm_compute; reflexivity|]);
-      intros t err parts p l Ht Hp Hl; vm_compute in Ht; destruct Ht as [Ht|[]]; inversion Ht; subst; clear Ht;
-      simpl in Hp; repeat (destruct Hp as [Hp|Hp]; [inversion Hp; subst; reflexivity|]); destruct Hp. }
-  simpl. repeat split; try (vm_compute; discriminate); try (vm_compute; reflexivity); try constructor; auto.
-Qed.
+  wf bx_s0 = true /\
+  stale_count bx_truth bx_ps bx_s0 = 2%nat /\
+  first_success true bx_ps bx_s0 [bx_a1; bx_a2; bx_a3] = Some 2%nat /\
+  all_good bx_truth true bx_ps bx_s0 [bx_a1; bx_a2; bx_a3].
+Proof. exact bx_budget_attained. Qed.
